@@ -160,6 +160,57 @@ def _debug_markers(src, ptoks):
     return out
 
 
+def strip_deep_specs(src, ptoks):
+    """the neutraliser of finding F10c, computed from CPython's tokens: every format spec of a replacement field that itself sits
+    inside a format spec (depth >= 2) is removed (from its ':' up to the field's closing brace); returns None if there is none"""
+    offs = [0]
+    for line in io.StringIO(src).readlines():
+        offs.append(offs[-1] + len(line))
+
+    def ab(pos):
+        return offs[pos[0] - 1] + pos[1]
+
+    stack = []  # entries: ["f"] | ["field", bracket_depth, in_spec, spec_level]
+    cuts = []
+    cut_from = None
+    cut_owner = None
+    for t in ptoks:
+        if t.type == pytok.FSTRING_START:
+            stack.append(["f"])
+        elif t.type == pytok.FSTRING_END:
+            while stack and stack[-1][0] != "f":
+                stack.pop()
+            if stack:
+                stack.pop()
+        elif t.type == pytok.OP and stack:
+            top = stack[-1]
+            if t.string == "{" and (top[0] == "f" or (top[0] == "field" and top[2])):
+                level = top[3] + 1 if top[0] == "field" else 0
+                stack.append(["field", 0, False, level])
+            elif top[0] == "field" and not top[2]:
+                if t.string in "([{":
+                    top[1] += 1
+                elif t.string in ")]" or (t.string == "}" and top[1] > 0):
+                    top[1] -= 1
+                elif t.string == ":" and top[1] == 0:
+                    top[2] = True
+                    if top[3] >= 1 and cut_from is None:
+                        cut_from, cut_owner = ab(t.start), top
+                elif t.string == "}" and top[1] == 0:
+                    stack.pop()
+            elif top[0] == "field" and top[2] and t.string == "}":
+                if cut_owner is top:
+                    cuts.append((cut_from, ab(t.start)))
+                    cut_from = cut_owner = None
+                stack.pop()
+    if not cuts:
+        return None
+    out = src
+    for a, b in sorted(cuts, reverse=True):
+        out = out[:a] + out[b:]
+    return out
+
+
 _DEEP_SPEC = None
 
 
@@ -179,17 +230,8 @@ def classify(src, ptoks, kind, detail):
             neutral = neutral[:a] + neutral[b:]
         if _passes(neutral):
             return "F10e"
-    deep = re.compile(r"(:[^{}'\"]*\{[^{}:]*):[^{}]*\{[^{}]*\}")
-    n2 = re.sub(r"(:[^{}'\"]*)\{(\w+):[^{}'\"]*\{\w+\}\}", r"\1{\2}", neutral)  # ...:{w:>{z}}} -> ...:{w}}
-    if n2 != neutral and _passes(n2):
-        return "F10c"
-    n2 = neutral
-    for _ in range(8):
-        n3 = deep.sub(r"\1", n2)
-        if n3 == n2:
-            break
-        n2 = n3
-    if n2 != neutral and _passes(n2):
+    n2 = strip_deep_specs(neutral, gen_py.py_tokens(neutral) or ptoks) if neutral != src else strip_deep_specs(src, ptoks)
+    if n2 is not None and n2 != neutral and _passes(n2):
         return "F10c"
     return None
 
